@@ -732,6 +732,18 @@ pub fn gen_shape(rng: &mut Rng, max_axes: usize, max_len: usize, max_elems: usiz
     }
 }
 
+/// A shape with roughly `target` elements spread over 1..=max_axes axes (for size-dependent
+/// behaviour such as internal block sizes).
+pub fn gen_large_shape(rng: &mut Rng, max_axes: usize, target: usize) -> Vec<usize> {
+    let d = rng.range(1, max_axes);
+    let side = (target as f64).powf(1.0 / d as f64);
+    let mut shape: Vec<usize> = (0..d).map(|_| (side as usize + rng.range(0, 2)).max(1)).collect();
+    if d == 1 {
+        shape[0] = target + rng.range(0, 3);
+    }
+    shape
+}
+
 pub fn gen_value(rng: &mut Rng, family: u64) -> f64 {
     match family {
         0 => rng.below(1000) as f64,                                  // small counts
